@@ -188,6 +188,7 @@ class Backend(ABC):
         )
         self.last_processing_pipeline.vars["backend"] = self.name
         self.last_processing_pipeline.vars["output_format"] = output_format or self.default_format
+        self.last_processing_pipeline_format = output_format or self.default_format
 
     def convert(
         self,
@@ -255,10 +256,13 @@ class Backend(ABC):
             List of converted queries
         """
         try:
-            # Initialize processing pipeline if not already done
+            # Initialize processing pipeline if not already done for this output format (the
+            # pipeline of the output format is part of it)
             if (
                 not hasattr(self, "last_processing_pipeline")
                 or self.last_processing_pipeline is None
+                or getattr(self, "last_processing_pipeline_format", None)
+                != (output_format or self.default_format)
             ):
                 self.init_processing_pipeline(output_format)
 
@@ -725,10 +729,13 @@ class Backend(ABC):
                     rule.source,
                     f"Correlation method '{method}' is not supported by backend '{self.name}'.",
                 )
-            # Initialize processing pipeline if not already done
+            # Initialize processing pipeline if not already done for this output format (the
+            # pipeline of the output format is part of it)
             if (
                 not hasattr(self, "last_processing_pipeline")
                 or self.last_processing_pipeline is None
+                or getattr(self, "last_processing_pipeline_format", None)
+                != (output_format or self.default_format)
             ):
                 self.init_processing_pipeline(output_format)
             self.last_processing_pipeline.apply(rule)
